@@ -101,6 +101,9 @@ def tree_path(I, res, prop, scen_name):
             if next_of(a["id"]) != b["id"]:
                 cx.viol("tree:%s:next-link" % what, "next of %s is %s, declared successor %s" % (a["id"], next_of(a["id"]), b["id"]))
         last = seq[-1]
+        if last.get("next") and next_of(last["id"]) != last["next"]:
+            # `next` names an earlier step (a loop back); it is honoured on the last step of a sequence
+            cx.viol("tree:%s:explicit-next-link" % what, "%s declares next: %s but its next link is %s" % (last["id"], last["next"], next_of(last["id"])))
         if not last.get("next") and next_of(last["id"]) is not None and what != "acts":
             cx.viol("tree:%s:dangling-next" % what, "the last of %s has next %s" % (what, next_of(last["id"])))
 
